@@ -41,6 +41,13 @@ fn main() {
             }
         };
         let prop = v["property"].as_str().unwrap_or("").to_string();
+        if v["case"]["kind"].as_str() == Some("abort") {
+            eprintln!("MACHINERY: this artefact records a process abort without a case; rerun `./check {} quick` to reproduce", prop);
+            std::process::exit(2);
+        }
+        if std::env::var("MC_CHILD").is_err() {
+            engine::install_abort_handler(&prop, &std::env::var("VERIF_ROOT").unwrap_or_else(|_| "/verif".into()));
+        }
         let findings = match props::replay(&prop, &v["case"]) {
             Some(f) => f,
             None => {
@@ -75,6 +82,7 @@ fn main() {
     let prop = args[1].to_uppercase();
     let ctx = Ctx::new(&prop, tier);
     engine::start_hang_monitor(prop.clone(), std::time::Duration::from_secs(90));
+    engine::install_abort_handler(&prop, &ctx.verif_root);
     if !props::run(&ctx) {
         eprintln!("MACHINERY: unknown property {}", prop);
         std::process::exit(2);
